@@ -4,5 +4,5 @@ set -e
 cd "$(dirname "${BASH_SOURCE[0]}")"
 export GOFLAGS=-mod=mod GOPROXY=off
 cp /repo/go.sum harness/go.sum
-./run build asm purego sched
+./run build asm purego sched race
 echo "setup ok"
